@@ -62,12 +62,13 @@ package log
 //@   requires LogLast(l) < 18446744073709551614 && len(b) <= 1099511627776 && l.opt.SegmentSize >= 1024
 //@   requires forall(x, l.gin[x] ==> arrof(b) != SArr(x))
 //@   requires [C14.no-stale-segment] !fs[lfile(l.dir, LogLast(l))] || l.last.n == 0
-//@   modifies l.last, l.opt.SegmentSize, l.gin, segment.n, segment.size, segment.synced, segment.next, segment.prev, elems(uint8), mmap.File.gdur, fs
+//@   modifies l.last, l.opt.SegmentSize, l.gin, segment.gord, segment.n, segment.size, segment.synced, segment.next, segment.prev, elems(uint8), mmap.File.gdur, fs
 //@   ensures [C13.append-keeps-shape] LogShape(l) && l.first == old(l.first)
 //@   ensures [C13.append-last] result0 == nil ==> LogLast(l) == old(LogLast(l)) + 1 && LogPrev(l) == old(LogPrev(l))
 //@   ensures [C13.append-failed] result0 != nil ==> LogLast(l) == old(LogLast(l)) && l.last == old(l.last) && l.gin == old(l.gin)
 //@   ensures [C13.append-others-kept] forall(x, old(l.gin[x]) && x != old(ref(l.last)) ==> l.gin[x] && SegKept(x))
 //@   ensures [C14.roll-commits] result0 == nil && l.last != old(l.last) ==> old(l.last).synced == old(l.last).n && l.last.n == 1
+//@   ghostcode after call connect 1: s.gord := l.last.gord + 1
 //@   ghostcode after call connect 1: l.gin[ref(s)] := true
 
 // ---------------------------------------------------------------------------
@@ -117,3 +118,20 @@ package log
 //@   ghostcode after call disconnect 1: l.gin[ref(s)] := false
 //@   loop 1 invariant LogShape(l) && l.last == old(l.last) && forall(x, l.gin[x] ==> old(l.gin[x]) && SegSame(x)) && l.first.prevIndex >= old(l.first.prevIndex) && (l.first.prevIndex > old(l.first.prevIndex) ==> l.first.prevIndex <= i)
 //@   loop 1 invariant forall(x, l.gin[x] && SN(x) > 0 ==> SSy(x) == SN(x))
+
+// Reset: every segment of the list is closed and deleted (the walk visits all of them: ghost order), then one
+// empty segment at lastIndex is created. With no stale segment file in the directory the new segment is empty.
+//@ pure TailOK(l *Log, x *segment) bool = SegGood(x) && (x.next != nil ==> l.gin[ref(x.next)] && x.next.gord == x.gord + 1) && (x.next == nil ==> x == l.last) && x.gord <= l.last.gord
+//@ pure SOrd(x *segment) int = x.gord
+//@ func (*Log).Reset
+//@   props C02 C03 C04 C09 C10
+//@   requires LogShape(l) && l.index == nil
+//@   requires [C14.no-stale-segment] NoStale(l)
+//@   requires lastIndex < 18446744073709551614
+//@   modifies l.first, l.last, l.gin, segment.synced, elems(uint8), mmap.File.gdur, fs
+//@   ensures [C13.reset] result0 == nil ==> LogShape(l) && l.first == l.last && LogPrev(l) == lastIndex && LogLast(l) == lastIndex
+//@   ghostcode after call closeAndRemove 1: l.gin[ref(l.first)] := false
+//@   ghostcode after call openSegment 1: l.gin := setof(ref(result0))
+//@   loop 1 invariant l.last == old(l.last) && (l.first != nil ==> InList(l, l.first) && SegGood(l.first)) && (l.first == nil ==> forall(x, !l.gin[x]))
+//@   loop 1 invariant forall(x, l.gin[x] ==> x != 0 && allocated(x) && old(l.gin[x]) && TailOK(l, x) && l.first.gord <= SOrd(x)) && forall(x, y, l.gin[x] && l.gin[y] && x != y ==> SegSep(x, y))
+//@   loop 1 invariant forall(x, old(l.gin[x]) ==> SegSame(x) && SName(x) == old(SName(x))) && forall(x, old(l.gin[x]) && !l.gin[x] ==> !fs[SName(x)]) && forall(p, fs[p] ==> old(fs[p]))
